@@ -5,6 +5,7 @@ import (
 
 	"github.com/NethermindEth/juno/blockchain/networks"
 	"github.com/NethermindEth/juno/core"
+	"github.com/NethermindEth/juno/core/state"
 	"github.com/NethermindEth/juno/verifh/lib"
 	"github.com/NethermindEth/juno/verifh/lib/chain"
 )
@@ -30,6 +31,12 @@ func stateLayer(r *lib.Run) {
 			return
 		}
 		restartAt := rng.IntN(length)
+		// new-state verifier, every other such case: at the restart point every contract record is
+		// rewritten the way the head-state migration writes it (state.WriteContract: nonce, class
+		// hash, deploy height; "StorageRoot is left zero - the running node lazily backfills it");
+		// the storage tries stay as they are. Later blocks must still verify.
+		stripRoots := !builderNew && idx%4 == 0
+		stripped := ""
 		for i, blk := range c.Blocks {
 			ver := blk.Block.ProtocolVersion
 			want, cr, clr := c.States[i].Commitment(ver)
@@ -42,12 +49,32 @@ func stateLayer(r *lib.Run) {
 				return
 			}
 			if err := other.StoreBlk(blk); err != nil {
-				r.Violation(fmt.Sprintf("state-root-disagreement:store-newstate=%v", !builderNew), idx,
+				r.Violation(fmt.Sprintf("state-root-disagreement:store-newstate=%v%s", !builderNew, stripped), idx,
 					fmt.Sprintf("block %d finalised by backend newState=%v is rejected by backend newState=%v: %v", i, builderNew, !builderNew, err),
 					map[string]any{"block": i, "version": ver})
 				return
 			}
 			if i == restartAt {
+				if stripRoots {
+					batch := other.DB.NewBatch()
+					n := 0
+					for a := range c.States[i].Contracts {
+						a := a
+						rec, err := state.GetContract(other.DB, &a)
+						if err != nil {
+							continue
+						}
+						if err := state.WriteContract(batch, &a, rec.Nonce, rec.ClassHash, rec.DeployedHeight); err != nil {
+							panic(err)
+						}
+						n++
+					}
+					if err := batch.Write(); err != nil {
+						panic(err)
+					}
+					stripped = ":after-contract-records-rewritten-without-storage-root"
+					r.Count("contract_records_rewritten_without_storage_root", n)
+				}
 				other.Restart(false) // drop all in-memory objects, reopen over the same store
 			}
 			// temporary tries: both backends must produce the same commitments and hash
